@@ -161,6 +161,10 @@ def check_program(prog: Dict[str, Any], acc: Acc, flags=None):
             if child is not None:
                 stages.append(("nested-handle", h))
                 break
+        # "add the block first, fill it afterwards": an EMPTY sub-circuit is nested, operations go in through the returned handle
+        from qce_circuit.language.declarative_circuit import DeclarativeCircuit as _DC
+        stages.append(("empty-block-handle", circuit0.add(_DC())))
+        stages.append(("empty-block-handle", stages[-1][1]))
         for how, handle in stages:
             op = bp.make_op({"k": "Rx180" if handle is None else "Ry90", "q": [0 if handle is None else 1]}, ctx, [built.top])
             if handle is None:
